@@ -14,6 +14,7 @@ import (
 	"strings"
 	"time"
 
+	"helm.sh/helm/v4/pkg/action"
 	chart "helm.sh/helm/v4/pkg/chart/v2"
 	"helm.sh/helm/v4/pkg/chart/v2/loader"
 	chartutil "helm.sh/helm/v4/pkg/chart/v2/util"
@@ -50,7 +51,7 @@ func genData(r *Rng) []byte {
 type c15opts struct{ bom, backslash, v1lock, valuesNoRaw bool }
 
 func genIOChart(r *Rng, depth int, name string, o c15opts) *chart.Chart {
-	c := &chart.Chart{Metadata: &chart.Metadata{APIVersion: "v2", Name: name, Version: Pick(r, []string{"0.1.0", "1.2.3-rc.1+b5", "10.0.0"})}}
+	c := &chart.Chart{Metadata: &chart.Metadata{APIVersion: "v2", Name: name, Version: Pick(r, []string{"0.1.0", "1.2.3-rc.1+b5", "10.0.0", "1.2", "v1.2.3", "3"})}}
 	if r.Chance(25) {
 		c.Metadata.APIVersion = "v1"
 	}
@@ -357,6 +358,34 @@ func chartIOCase(m *Model, rep *Report, dir string, c *chart.Chart, stream strin
 					rep.Issue(Issue{Kind: "monitor", Fingerprint: fp, What: "loading the same content from a directory and from an archive gives different charts: " + firstDiff(aobs, dobs), Case: chartObs(c, false), Seed: seed, Index: idx})
 				} else {
 					rep.H("dir-archive-agree")
+				}
+				// `helm package` of that directory (action.Package.Run): the packaged chart is the chart of the directory
+				pkgDest := filepath.Join(sub, "pkg")
+				os.MkdirAll(pkgDest, 0o755)
+				pk := action.NewPackage()
+				pk.Destination = pkgDest
+				var pkPath string
+				var pkErr error
+				if p := safely(func() { pkPath, pkErr = pk.Run(filepath.Join(dd, c.Name()), nil) }); p != "" {
+					rep.Issue(Issue{Kind: "monitor", Fingerprint: "C20:panic:Package.Run", What: p, Case: chartObs(c, false), Seed: seed, Index: idx})
+				} else if pkErr == nil {
+					if pc, err := loader.Load(pkPath); err == nil {
+						pobs := chartObs(pc, true)
+						sortFiles(pobs)
+						if !jsonEqual(pobs, dobs) {
+							fp := "C15:package-differs"
+							if hasLock(c) {
+								fp = "C15:savedir-lock-dropped"
+							}
+							rep.Issue(Issue{Kind: "monitor", Fingerprint: fp, What: "the chart packaged from a directory differs from the chart loaded from that directory: " + firstDiff(dobs, pobs), Case: chartObs(c, false), Seed: seed, Index: idx})
+						} else {
+							rep.H("package-agrees")
+						}
+					} else {
+						rep.Issue(Issue{Kind: "monitor", Fingerprint: "C15:package-unloadable", What: "the archive written by Package.Run does not load: " + err.Error(), Case: chartObs(c, false), Seed: seed, Index: idx})
+					}
+				} else {
+					rep.H("package-error")
 				}
 			} else {
 				rep.H("dir-load-error")
